@@ -7,7 +7,7 @@
    functions, so termination is part of each statement; the one loop whose
    termination is not structural (dns.readName, which may jump backwards through
    compression pointers) has its own termination theorems. *)
-From CJ Require Import Common.Base C11.Model C11.ProofsMsg C11.ProofsFlight C11.ProofsDns C11.ProofsDown.
+From CJ Require Import Common.Base C11.Model C11.ProofsMsg C11.ProofsFlight C11.ProofsDns C11.ProofsDown C11.ProofsStats.
 
 (* ---- transports: ParseParams / GetDstPort of min, obfs4, prefix, dtls *)
 Theorem C11_entry_total_no_panic_parse_params :
@@ -174,3 +174,27 @@ Theorem C11_never_hangs_dns_records :
     read_many read_rr count msg pos acc = Ok (l, e, p) -> N.of_nat (length l) + pos <= N.of_nat (length acc) + p.
 Proof. exact read_many_rr_bounded. Qed.
 Print Assumptions C11_never_hangs_dns_records.
+
+(* ---- fourth wave: ingest of registrations running concurrently with the statistics epoch.
+   Threads are lists of lock-protected regions (each one atomic step), a schedule picks the thread that
+   takes the next step.  For any number of ingest workers accounting any registrations, any number of
+   Reset callers and statistics tickers, every schedule and every initial content of the three maps: the
+   run ends normally -- no interleaving reaches the nil dereference. *)
+Theorem C11_stats_epoch_no_panic :
+  forall (ks : list tkind) (sched : list nat) (s : sstate), exists s', run_all sched (map thread_of ks) s = Ok s'.
+Proof. exact stats_epoch_ok. Qed.
+Print Assumptions C11_stats_epoch_no_panic.
+
+(* ... and no configuration reachable on the way is one (every prefix of a schedule is a schedule) *)
+Theorem C11_stats_epoch_reachable_no_panic :
+  forall (ks : list tkind) (sched : list nat) (s : sstate), run_sched sched (map thread_of ks) s <> Panic.
+Proof. exact stats_epoch_reach_np. Qed.
+Print Assumptions C11_stats_epoch_reachable_no_panic.
+
+(* the class, not the three programs: ANY threads whose regions never increment a counter they did not
+   ensure in the same region (double-checked creation, extra lookups, other orders of the maps, ...) *)
+Theorem C11_stats_epoch_safe_regions_no_panic :
+  forall (sched : list nat) (ts : list thread) (s : sstate),
+    forallb safe_thread ts = true -> exists s', run_all sched ts s = Ok s'.
+Proof. exact run_all_safe_ok. Qed.
+Print Assumptions C11_stats_epoch_safe_regions_no_panic.
